@@ -666,7 +666,7 @@ func c30() {
 					}
 					sc := genC30(r.Rand(fmt.Sprintf("hist-%d", i)), i)
 					sc.Procs = procs
-					fmt.Printf("case %d %s\n", i, vk.JSON(sc))
+					fmt.Printf("case %d\n", i) // the script is a pure function of (seed, index)
 					res := runC30(r, sc)
 					r.Eval(1)
 					if res.hang {
